@@ -42,6 +42,22 @@ def region_before_restart(case):
     return False
 
 
+def region_raft_conflict(case):
+    """known finding F33: an operation on an address follows, without a pause, another one on the same address of which
+    one goes through Raft (a persistent registration / deregistration)"""
+    touched = {}
+    for o in case.ops:
+        w = o.split()
+        if w[0] == "settle":
+            touched = {}
+        elif w[0] in ("reg", "dereg") and len(w) >= 6:
+            k, eph = (w[2], w[3]), w[5]
+            if k in touched and (touched[k] == "0" or eph == "0"):
+                return True
+            touched[k] = eph
+    return False
+
+
 def gen_writes(rng, tier):
     """C06: writes addressed to every node, kills / stops / restarts of a minority, leader changes"""
     cases = []
@@ -94,11 +110,21 @@ def gen_registry(rng, tier):
     for i in range(5 if tier == "thorough" else 1):
         ops = ["up 3"]
         svcs = ["svc1", "svc2"]
+        touched = {}       # (svc, ip) -> persistence class of the last operation on the address, since the last pause
         for _ in range(rng.randrange(6, 14)):
             node = rng.choice([1, 2, 3])
             svc = rng.choice(svcs)
             ip = "10.0.0.%d" % rng.randrange(1, 5)
             eph = rng.choice([0, 0, 1])
+            # an operation on an address follows another one on the same address that went (or goes) through Raft only
+            # after that one has been applied everywhere: persistent registrations are acknowledged by the leader's
+            # commit, a follower applies them a moment later, and a conflicting operation handled by that follower in
+            # between acts on the older state (two replication paths, no common order - an observation recorded in
+            # DESIGN.md, not what C15 is about)
+            if (svc, ip) in touched and (touched[(svc, ip)] == 0 or eph == 0):
+                ops.append("settle 1500")
+                touched = {}
+            touched[(svc, ip)] = eph
             if rng.random() < 0.75:
                 ops.append("reg %d %s %s 80 %d" % (node, svc, ip, eph))
             else:
